@@ -280,15 +280,45 @@ pub fn types(ctx: &Ctx) {
         0 => proto = crate::cat::xyz(ty.clone()),
         1 => proto.push(crate::cat::rec("intensity", ty.clone())),
         2 => {
+            // three different channel types: the catalogue type, 8 bit, and the catalogue's next type
             proto.push(crate::cat::rec("colorRed", ty.clone()));
-            proto.push(crate::cat::rec("colorGreen", ty.clone()));
-            proto.push(crate::cat::rec("colorBlue", ty.clone()));
+            proto.push(crate::cat::rec("colorGreen", m::Ty::Int { min: 0, max: 255 }));
+            proto.push(crate::cat::rec("colorBlue", types[(ti + 1) % types.len()].clone()));
         }
         3 => proto.push(crate::cat::rec("timeStamp", ty.clone())),
         _ => proto.push(crate::cat::ext_rec("ext", "attr", ty.clone())),
     }
-    let p = Program { guid: "g".into(), ops: vec![Op::Ext("ext".into(), "http://example.com/ext".into()), Op::Cloud(cloud(proto, 2, 3))], ..Default::default() };
-    if roundtrip(ctx, &p, P).is_some() {
+    let p = Program { guid: "g".into(), ops: vec![Op::Ext("ext".into(), "http://example.com/ext".into()), Op::Cloud(cloud(proto.clone(), 2, 3))], ..Default::default() };
+    if let Some((_, rb)) = roundtrip(ctx, &p, P) {
+        // limits nobody set are the declared ranges of the attribute types, per channel
+        let got = &rb.scene.clouds[0].meta;
+        let tl = |n: &str| proto.iter().find(|r| r.ns.is_none() && r.name == n).map(|r| crate::c14::type_limits(&r.ty));
+        let same = |a: &Option<m::LVal>, b: &Option<m::LVal>| a.map(|v| v.key()) == b.map(|v| v.key());
+        if let (Some(r), Some(g), Some(b)) = (tl("colorRed"), tl("colorGreen"), tl("colorBlue")) {
+            let all = [r.0, r.1, g.0, g.1, b.0, b.1];
+            let exp = if all.iter().all(|x| x.is_some()) { Some(all) } else { None };
+            let ok = match (&exp, &got.color_limits) {
+                (None, None) => true,
+                (Some(e), Some(x)) => e.iter().zip(x.iter()).all(|(a, b)| same(a, b)),
+                _ => false,
+            };
+            if !ok {
+                ctx.violation(format!("{P}/derived-limits/colorLimits"), format!("colour limits read back {:?}, the declared type ranges are {exp:?}; {}", got.color_limits, describe(&p)));
+                return;
+            }
+        }
+        if let Some(i) = tl("intensity") {
+            let exp = if i.0.is_some() && i.1.is_some() { Some([i.0, i.1]) } else { None };
+            let ok = match (&exp, &got.intensity_limits) {
+                (None, None) => true,
+                (Some(e), Some(x)) => same(&e[0], &x[0]) && same(&e[1], &x[1]),
+                _ => false,
+            };
+            if !ok {
+                ctx.violation(format!("{P}/derived-limits/intensityLimits"), format!("intensity limits read back {:?}, the declared type range is {exp:?}; {}", got.intensity_limits, describe(&p)));
+                return;
+            }
+        }
         ctx.count(format!("slot:{slot}"));
         ctx.nontrivial();
     }
@@ -312,6 +342,15 @@ pub fn scale(ctx: &Ctx) {
         p
     };
     if judge(ctx, &p) {
+        ctx.nontrivial();
+    }
+}
+
+/// registered extensions: all sequences of <= 3 registration attempts (2 prefixes x 2 URLs and the
+/// empty URL); the reader must list exactly the registrations the reference model accepts
+pub fn ext(ctx: &Ctx) {
+    let p = crate::c02::ext_program(ctx);
+    if roundtrip(ctx, &p, P).is_some() {
         ctx.nontrivial();
     }
 }
